@@ -738,6 +738,153 @@ def run_and_check(ck, model, projects):
 
 
 # ------------------------------------------------------------------------------------------
+# (b') multi-compilation session: several source-mapped compilations in ONE process with chdir in between
+# ------------------------------------------------------------------------------------------
+def session_steps(rng, pr):
+    v = max(8, pr["min_version"])
+    seq = [("projA", "p1"), ("projA", "router"), ("projB/build", "p1"), ("projB/build", "router"), ("projB/build", "p2"),
+           ("projC", "p1"), ("projC", "p2"), ("deep/er/dir", "router"), ("deep/er/dir", "p2"), ("projA", "p2"), ("projA", "p1")]
+    steps = []
+    for i, (cwd, prog) in enumerate(seq):
+        steps.append({"cwd": cwd, "prog": prog, "version": rng.choice([v, 9, 10]), "annotate": i % 3 != 1, "concise": i % 2 == 0,
+                      "teal_filename": rng.choice([None, "sess.teal"])})
+    return steps
+
+
+def run_session(root, steps, timeout=600):
+    out = os.path.join(root, "_c15_session.json")
+    env = dict(os.environ)
+    env["PYTHONPATH"] = common.REPO
+    env["PYTHONHASHSEED"] = "0"
+    env["PYTHONDONTWRITEBYTECODE"] = "1"
+    start = os.path.join(root, steps[0]["cwd"])
+    try:
+        p = subprocess.run([PY, os.path.join(root, "app", "driver.py"), root, out, json.dumps(steps)], cwd=start, env=env, capture_output=True, text=True, timeout=timeout)
+    except subprocess.TimeoutExpired:
+        return None, "timeout after %ds" % timeout
+    if p.returncode != 0 or not os.path.exists(out):
+        return None, (p.stdout + p.stderr)[-2000:]
+    return json.load(open(out)), (p.stdout + p.stderr)[-1500:]
+
+
+def check_session(ck, model, root, pr, steps, results, stats):
+    """The per-map oracle applied to every map of the session, each against ITS OWN sourceRoot / cwd at compile time.
+    Returns [(what, detail)]."""
+    bad = []
+    root = os.path.realpath(root)
+    seq = []
+    for st, res in zip(steps, results):
+        seq.append("%s@%s" % (st["prog"], st["cwd"]))
+        here = " [step %d of the session %s]" % (len(seq), " -> ".join(seq))
+        ck.count(("session-step", len(seq), json.dumps(st, sort_keys=True)), nontrivial="error" not in res)
+        stats["session_steps"] += 1
+        if "error" in res:
+            bad.append(("source-mapped compilation fails in a multi-compilation session: %s: %s%s" % (res["error"][0], res["error"][1][:160].replace("\n", " "), here),
+                        {"error": res["error"], "step": st, "steps_so_far": seq[:]}))
+            continue
+        cwd = os.path.realpath(os.path.join(root, st["cwd"]))
+        if os.path.realpath(res["cwd"]) != cwd:
+            bad.append(("session driver is not in the directory asked for" + here, {"cwd": res["cwd"], "asked": cwd}))
+            continue
+        for pm in res["programs"]:
+            stats["session_maps"] += 1
+            lines = pm["teal"].split("\n")
+            n = len(lines)
+            if pm["same_ast_plain"] is not None and pm["same_ast_plain"] != pm["teal"]:
+                bad.append(("TEAL with source map differs from compileTeal of the same AST" + here, {"step": st}))
+            if pm["index"] != [[0]] * n or [(e[0], e[1]) for e in pm["entries"]] != [(i, 0) for i in range(n)] or pm["file_lines"] != lines:
+                bad.append(("map does not have exactly one entry per TEAL line, in order" + here, {"step": st, "lines": n, "entries": len(pm["entries"])}))
+                continue
+            mroot = pm["root"]
+            if mroot is None or os.path.realpath(mroot) != cwd:
+                bad.append(("sourceRoot %r is not the working directory of the compilation %r%s" % (mroot, cwd, here), {"step": st}))
+                continue
+            j = json.loads(json.dumps(pm["json"]))
+            if j.get("sourceRoot") != mroot:
+                bad.append(("JSON sourceRoot differs from the map's source_root" + here, {"json": j.get("sourceRoot"), "map": mroot}))
+            cache = {}
+
+            def resolve(src):
+                path = os.path.normpath(os.path.join(mroot, src))
+                if path not in cache:
+                    cache[path] = open(path, "rb").read().split(b"\n") if os.path.isfile(path) else None
+                return path, cache[path]
+
+            for src in j.get("sources", []):
+                path, fl = resolve(src)
+                if fl is None:
+                    bad.append(("JSON source %r does not exist under the map's sourceRoot %r (%s)%s" % (src, mroot, path, here),
+                                {"step": st, "source": src, "sourceRoot": mroot, "resolved": path, "steps_so_far": seq[:]}))
+                    break
+            for i, e in enumerate(pm["entries"]):
+                l, c, src, sl, sc, name = e
+                if src is None or sl is None:
+                    bad.append(("entry without source location" + here, {"entry": e}))
+                    break
+                path, fl = resolve(src)
+                if fl is None:
+                    bad.append(("TEAL line %d `%s` is attributed to %r under sourceRoot %r, i.e. %s, which does not exist%s" % (i + 1, lines[i][:60], src, mroot, path, here),
+                                {"step": st, "entry": e, "sourceRoot": mroot, "resolved": path, "steps_so_far": seq[:]}))
+                    break
+                if not (0 <= sl < len(fl)) or (sl == len(fl) - 1 and fl[sl] == b"") or not (0 <= sc <= len(fl[sl])):
+                    bad.append(("TEAL line %d is attributed to %s:%d:%d which does not exist%s" % (i + 1, path, sl + 1, sc, here), {"step": st, "entry": e}))
+                    break
+                m = MARK_RE.match(lines[i])
+                val = int(m.group(1) or m.group(2)) if m else None
+                if val in pr["markers"]:
+                    rel, ln, _ = pr["markers"][val]
+                    stats["session_marker_lines"] += 1
+                    want = os.path.realpath(os.path.join(root, rel))
+                    if os.path.realpath(path) != want or sl + 1 != ln or str(val).encode() not in fl[sl]:
+                        bad.append(("marker %d written on %s:%d is attributed to %s:%d (TEAL line %d)%s" % (val, rel, ln, path, sl + 1, i + 1, here),
+                                    {"step": st, "entry": e, "resolved": path, "steps_so_far": seq[:]}))
+                        break
+            # the JSON, decoded by the Coq decoder, carries the same associations
+            if wire_ok(j["mappings"]) and all(wire_ok(x) for x in j["sources"] + j["names"]):
+                got = m_from_json(model, j["sources"], j["names"], j["mappings"])
+                want = [[(e[1], e[2], e[3], e[4]) + ((e[5],) if e[5] is not None else ())] for e in pm["entries"]]
+                if got is None or [[tuple(s) for s in ln_] for ln_ in got] != want:
+                    bad.append(("R3 JSON decoded by the Coq decoder differs from the map's associations" + here, {"step": st}))
+            if st["annotate"] and pm["annotated"] is not None:
+                al = pm["annotated"].split("\n")
+                ok_wire = [i for i in range(min(n, len(al))) if wire_ok(al[i]) and wire_ok(lines[i])]
+                if len(al) != n or m_tokens(model, [al[i] for i in ok_wire]) != m_tokens(model, [lines[i] for i in ok_wire]):
+                    bad.append(("annotated TEAL differs from the TEAL once comments are removed" + here, {"step": st}))
+    return bad
+
+
+def validate_sessions(ck, model, tmp, thorough, stats):
+    findings = []
+    stats.update({"sessions": 0, "session_steps": 0, "session_maps": 0, "session_marker_lines": 0})
+    jobs = []
+    for k in range(6 if thorough else 2):
+        pr = c15_gen.session_project(ck.rng)
+        root = os.path.join(tmp, "sess%02d" % k)
+        write_project(root, pr)
+        jobs.append((root, pr, session_steps(ck.rng, pr)))
+    with concurrent.futures.ThreadPoolExecutor(max_workers=6) as ex:
+        outs = list(ex.map(lambda j: run_session(j[0], j[2]), jobs))
+    for (root, pr, steps), (res, log) in zip(jobs, outs):
+        stats["sessions"] += 1
+        if res is None:
+            findings.append(("session driver could not be run", {"log": log}, root, pr, steps))
+            continue
+        for what, detail in check_session(ck, model, root, pr, steps, res, stats):
+            findings.append((what, detail, root, pr, steps))
+        if stats["sessions"] == 1:
+            ck.sample({"validation_session": [s["prog"] + "@" + s["cwd"] for s in steps],
+                       "second_map_sources": (res[2].get("programs") or [{}])[0].get("json", {}).get("sources")}, limit=6)
+    return findings
+
+
+def report_session_findings(ck, findings):
+    for what, detail, root, pr, steps in findings[:4]:
+        ck.violation(what, {"kind": "session", "detail": detail, "steps": steps, "files": pr["files"],
+                            "markers": {str(k): v for k, v in pr["markers"].items()}, "min_version": pr["min_version"],
+                            "how": "write `files` under a fresh directory R, run `python R/app/driver.py R out.json '<steps as JSON>'` with cwd R/<first cwd> (one process, chdir between steps)"})
+
+
+# ------------------------------------------------------------------------------------------
 def report_findings(ck, findings, replay_known=False):
     """Turn implementation-side findings into violations / known findings."""
     reported = 0
@@ -783,6 +930,19 @@ def replay(ck, path, tmp):
         for f in findings:
             print("replayed:", f[0])
         report_findings(ck, findings)
+        model.close()
+    elif kind == "session":
+        model = Model("c15")
+        pr = {"files": r["files"], "markers": {int(k): v for k, v in r["markers"].items()}, "kind": "session", "min_version": r["min_version"], "app_only": True}
+        root = os.path.join(tmp, "replay_session")
+        write_project(root, pr)
+        res, log = run_session(root, r["steps"])
+        st = {"sessions": 0, "session_steps": 0, "session_maps": 0, "session_marker_lines": 0}
+        fs = [("session driver could not be run", {"log": log}, root, pr, r["steps"])] if res is None else \
+             [(w, d, root, pr, r["steps"]) for w, d in check_session(ck, model, root, pr, r["steps"], res, st)]
+        for f in fs:
+            print("replayed:", f[0][:300])
+        report_session_findings(ck, fs)
         model.close()
     else:
         print("replay: nothing executable in %s (kind=%r): %s" % (path, kind, r.get("what")))
@@ -849,6 +1009,7 @@ def run_check(ck, thorough, tmp):
 
     vlq_mism, vlq_prop, r3_mism, r3_prop = [], [], [], []
     stats, findings = {}, []
+    session_findings = []
     if model is not None:
         # ---------------- 2a. correspondence ----------------
         t = time.time()
@@ -859,6 +1020,7 @@ def run_check(ck, thorough, tmp):
         # ---------------- 2b. implementation-side validation ----------------
         t = time.time()
         stats, findings = validate_projects(ck, model, tmp, thorough)
+        session_findings = validate_sessions(ck, model, tmp, thorough, stats)
         # ---------------- 4. known findings replayed against the real code ----------------
         kprojects = []
         for fid, mk, kd, ver in (("internal-path-substring", c15_gen.known_internal_path_project, "expr", 8),
@@ -886,6 +1048,7 @@ def run_check(ck, thorough, tmp):
     for f in real_failures[:4]:
         ck.violation("%s fails on the real implementation" % ("VLQ decode(encode(l)) = l" if f["kind"] == "vlq-roundtrip" else "from_json(to_json(m)) = m"), f)
     report_findings(ck, findings)
+    report_session_findings(ck, session_findings)
     broken = []
     if translator_error:
         broken.append("translator: " + translator_error)
@@ -906,7 +1069,7 @@ def run_check(ck, thorough, tmp):
             ck.violation("broken: " + "; ".join(broken),
                          {"kind": "broken-tie", "broken": broken, "first_vlq": vlq_mism[:2], "first_r3": r3_mism[:2], "log": getattr(ck, "proof_log", "")[-1500:]},
                          no_failing_input=True)
-    ck.coverage["disagreements_checked"] = len(vlq_mism) + len(r3_mism) + len(real_failures) + len(findings)
+    ck.coverage["disagreements_checked"] = len(vlq_mism) + len(r3_mism) + len(real_failures) + len(findings) + len(session_findings)
     if model is not None:
         model.close()
     return ck.finish(
@@ -917,7 +1080,8 @@ def run_check(ck, thorough, tmp):
              "R3SourceMap constructor/to_json/from_json vs Lit/R3.v on random well-formed tables, unordered tables and mutated/malformed mappings; "
              "distinct = distinct input value; non-trivial = the real code returns a value (no exception). "
              "validation part (NOT proof): generated multi-file projects run in fresh interpreters (one with source mapping, one without) under "
-             "several versions/optimize/assemble/annotate options; a case = (project, configuration).",
+             "several versions/optimize/assemble/annotate options; a case = (project, configuration); plus multi-compilation sessions: one process compiles "
+             "source-mapped programs (incl. a Router) from several working directories at different depths with os.chdir in between, every map checked against its own sourceRoot; a case = (session, step).",
         trusted_base=[
             "PARTIAL: the theorems cover the VLQ codec, the R3 mappings codec and comment stripping; frame capture (inspect/executing/file system), tabulate, "
             "one-entry-per-line, marker attribution and TEAL identity are VALIDATED on the implementation for the generated programs only (see coverage['implementation_validation (NOT proof)'])",
